@@ -4,6 +4,8 @@ import (
 	"fmt"
 	"go/token"
 	"go/types"
+	"regexp"
+	"strconv"
 
 	"golang.org/x/tools/go/ssa"
 )
@@ -312,7 +314,11 @@ func (ex *Exec) unop(fr *Frame, st *State, x *ssa.UnOp) Val {
 	v := ex.operand(fr, x.X)
 	switch x.Op {
 	case token.MUL:
-		return ex.load(fr, st, v, x.Type())
+		r := ex.load(fr, st, v, x.Type())
+		if g, ok := x.X.(*ssa.Global); ok && ex.spec == 0 {
+			ex.assumeGlobalInv(fr, st, g)
+		}
+		return r
 	case token.NOT:
 		return Not(v.(*Term))
 	case token.SUB:
@@ -358,7 +364,14 @@ func (ex *Exec) binop(fr *Frame, st *State, op token.Token, a, b Val, t types.Ty
 			if fr != nil {
 				ex.oblige(fr, st, "div", ex.exprText(pos, "%"), Not(Eq(y, IntT(0))), pos, "integer division by zero")
 			}
-			return Rem(x, y)
+			r := Rem(x, y)
+			if _, lit := y.IsInt(); !lit && !r.hasBound {
+				// congruence instances for divisors fixed by a global invariant (keeps the VC linear)
+				for _, n := range ex.divHints() {
+					ex.fact(nil, Implies(Eq(y, IntT(n)), Eq(r, Rem(x, IntT(n)))))
+				}
+			}
+			return r
 		case token.LSS, token.LEQ, token.GTR, token.GEQ:
 			return tokenCmp(op, x, y)
 		case token.SHL:
@@ -787,4 +800,20 @@ func (ex *Exec) allocAsserts(fr *Frame, st *State, x *ssa.Alloc) {
 		ex.oblige(fr, st, "assert@"+anchor, cl.Label, env.evalBool(cl.Text), x.Pos(), cl.Text)
 		fr.assertsDone[cl] = true
 	}
+}
+
+
+var divHintRe = regexp.MustCompile(`==\s*(\d+)`)
+
+func (ex *Exec) divHints() []int64 {
+	var out []int64
+	for _, g := range ex.cs.Globals {
+		if m := divHintRe.FindStringSubmatch(g.Clause.Text); m != nil {
+			n, _ := strconv.ParseInt(m[1], 10, 64)
+			if n > 0 {
+				out = append(out, n)
+			}
+		}
+	}
+	return out
 }
